@@ -264,13 +264,18 @@ func runServiceRules(c *Ctx) {
 				if u, isNot := cond.(*ssa.UnOp); isNot && u.Op == token.NOT {
 					cond, val = u.X, !val
 				}
-				if call, isCall := cond.(*ssa.Call); isCall && calleeName(call) == "(time.Time).Before" && val && g == "" {
-					own := canon(call.Call.Args[0])
-					other := canon(call.Call.Args[1])
-					if fs.field == "StartDate" && isDateVal(argOf(fs.call, call.Call.Args[0]), fn) && strings.HasSuffix(other, ".StartDate)") {
+				if call, isCall := cond.(*ssa.Call); isCall && (calleeName(call) == "(time.Time).Before" || calleeName(call) == "(time.Time).After") && val && g == "" {
+					// a.After(b) is b.Before(a)
+					first, second := call.Call.Args[0], call.Call.Args[1]
+					if calleeName(call) == "(time.Time).After" {
+						first, second = second, first
+					}
+					own := canon(first)
+					other := canon(second)
+					if fs.field == "StartDate" && isDateVal(argOf(fs.call, first), fn) && strings.HasSuffix(other, ".StartDate)") {
 						g = "date.Before(StartDate)"
 					}
-					if fs.field == "EndDate" && strings.HasSuffix(own, ".EndDate)") && isDateVal(argOf(fs.call, call.Call.Args[1]), fn) {
+					if fs.field == "EndDate" && strings.HasSuffix(own, ".EndDate)") && isDateVal(argOf(fs.call, second), fn) {
 						g = "EndDate.Before(date)"
 					}
 				}
@@ -428,14 +433,19 @@ func runServiceRules(c *Ctx) {
 				cond = u.X
 			}
 			call, isCall := cond.(*ssa.Call)
-			if !isCall || calleeName(call) != "(time.Time).Before" {
+			if !isCall || calleeName(call) != "(time.Time).Before" && calleeName(call) != "(time.Time).After" {
 				return ""
 			}
-			own, other := canon(call.Call.Args[0]), canon(call.Call.Args[1])
-			if strings.HasSuffix(other, ".StartDate)") && isDateVal(argOf(call0, call.Call.Args[0]), fn) {
+			// a.After(b) is b.Before(a)
+			first, second := call.Call.Args[0], call.Call.Args[1]
+			if calleeName(call) == "(time.Time).After" {
+				first, second = second, first
+			}
+			own, other := canon(first), canon(second)
+			if strings.HasSuffix(other, ".StartDate)") && isDateVal(argOf(call0, first), fn) {
 				return "start"
 			}
-			if strings.HasSuffix(own, ".EndDate)") && isDateVal(argOf(call0, call.Call.Args[1]), fn) {
+			if strings.HasSuffix(own, ".EndDate)") && isDateVal(argOf(call0, second), fn) {
 				return "end"
 			}
 			return ""
